@@ -3,7 +3,7 @@ from __future__ import annotations
 
 import ast
 
-from ..astutil import attr_path, call_name, walk, src, enclosing_func
+from ..astutil import attr_path, call_name, walk, src, enclosing_func, decorators
 from ..consteval import UNKNOWN, ClassRef
 from ..framework import rule
 from ..guards import branch_outcome
@@ -333,3 +333,42 @@ def d4_6(ctx):
                     if isinstance(v, int) and v in (500, 4000, 504, 508, 511, 4002):
                         lits.append((b, src(n)))
     ctx.check(not lits, ckey(lxm.key, "no-literal-sizes"), lxm.node, "builders compare against the negotiated size, not a literal", f"size comparisons against literals: {lits}")
+
+
+@rule(P, "D4.8", "T-ORDER", floor=1)
+def d4_8(ctx):
+    """Negotiated = budgeted: after the fallback lowers connection_size, a Forward Open that reads the new value is passed
+    before the decorated operation runs (a size written after the last Forward Open was never requested from the target)."""
+    drv = ctx.model.cls(f"{CD}:CIPDriver")
+    fi = ctx.model.func(f"{CD}:with_forward_open.wrapped")
+    g = ctx.cfg(fi.node)
+
+    def reads_size(fn):
+        for n in walk(fn):
+            if attr_path(n) == "self.connection_size" and isinstance(getattr(n, "ctx", None), ast.Load):
+                return True
+            if isinstance(n, ast.Subscript) and isinstance(n.ctx, ast.Load) and (attr_path(n.value) or "").endswith("._cfg") and ctx.folder.eval(n.slice, drv.module) == "connection_size":
+                return True
+        return False
+
+    negotiators = {name for name, m in drv.methods.items() if reads_size(m) and not any(d == "property" for d in decorators(m))}
+    fo_nodes = {n for n in g.nodes if n.ast is not None and n.kind in ("stmt", "test") and any(isinstance(c, ast.Call) and (attr_path(c.func) or "") in {f"self.{m}" for m in negotiators} for c in walk(n.ast if n.kind == "test" or not isinstance(n.ast, (ast.If, ast.While, ast.For, ast.Try, ast.With)) else ast.Pass()))}
+    params = {a.arg for a in ctx.model.func(f"{CD}:with_forward_open").node.args.args}
+    sinks = {n for n in g.nodes if n.kind == "stmt" and n.ast is not None and any(isinstance(c, ast.Call) and isinstance(c.func, ast.Name) and c.func.id in params for c in walk(n.ast))}
+    writers = []
+    for n in g.nodes:
+        if n.kind == "stmt" and isinstance(n.ast, (ast.Assign, ast.AugAssign)):
+            tgts = n.ast.targets if isinstance(n.ast, ast.Assign) else [n.ast.target]
+            for t in tgts:
+                if isinstance(t, ast.Subscript) and (attr_path(t.value) or "").endswith("._cfg") and ctx.folder.eval(t.slice, fi.module) == "connection_size":
+                    writers.append(n)
+    if not negotiators or not fo_nodes or not sinks:
+        ctx.undecided(ckey(fi, "size-then-open"), fi.node, f"negotiators {sorted(negotiators)}, call sites {len(fo_nodes)}, operation calls {len(sinks)}")
+        return
+    if not writers:
+        ctx.ok(ckey(fi, "size-then-open"), fi.node, "connection_size is not rewritten by the decorator (nothing to order)")
+    for i, w in enumerate(writers):
+        wit = g.must_pass(fo_nodes, start=w, sinks=sinks, avoid_edges=lambda a, b, lab: lab == "exc")
+        ctx.check(wit is None, ckey(fi, f"size-then-open#{i}" if i else "size-then-open"), w.ast, f"`{src(w.ast)}` is followed by {sorted(negotiators)} on every path to the decorated operation",
+                  f"`{src(w.ast)}` can reach the decorated operation without a Forward Open after it (path lines {[p.lineno for p in (wit or []) if p.lineno]}): the target was asked for the previous size "
+                  f"(the 9-bit field of the standard request truncates it) while requests are then sized for the new one", negotiators=sorted(negotiators))
